@@ -21,12 +21,18 @@ Local Open Scope N_scope.
 Definition En := Build_entry.
 Definition Rq := Build_req.
 
-Record obs := { o_opened : bool; o_reads : list (N * obsv); o_stages : list (list (N * obsv)) }.
+(** [o_second]: the batches written by a second incarnation on the reopened image (empty: none)
+    and the reads after its clean close and another reopen *)
+Record obs := { o_opened : bool; o_reads : list (N * obsv); o_stages : list (list (N * obsv));
+                o_second : list batch; o_reads2 : list (N * obsv) }.
 Definition Ob := Build_obs.
 
 Record case := {
   c_prop : N; c_sync : bool; c_seg : N; c_buckets : N; c_txn : bool;
-  c_steps : list step; c_effs : list eff; c_n : N; c_acked : N; c_obs : obs }.
+  c_steps : list step; c_effs : list eff; c_n : N; c_acked : N;
+  c_torn : N;   (* 0: the image after the n-th effect; j+1: the n-th effect is a WAL write torn inside
+                   its last record: only j of its records are complete in the file *)
+  c_obs : obs }.
 Definition Cs := Build_case.
 
 Definition medit_eqb (a b : medit) : bool :=
@@ -94,7 +100,14 @@ Definition check (c : case) : verdict :=
   let ms := compile (c_sync c) (c_steps c) in
   let st0 := init (c_seg c) (N.to_nat (c_buckets c)) in
   let n := N.to_nat (c_n c) in
-  let st := run_until ms n st0 in
+  let torn := negb (c_torn c =? 0) in
+  let st := if torn
+            then match n with
+                 | O => st0
+                 | S n' => let s1 := run_through ms n' st0 in
+                           fst (flush_k (N.to_nat (c_torn c - 1)) (fst s1) (snd s1))
+                 end
+            else run_until ms n st0 in
   let st_hi := run_through ms n st0 in
   let s := recover (crash st) in
   let o := c_obs c in
@@ -106,16 +119,22 @@ Definition check (c : case) : verdict :=
   (* the acknowledgement that follows wal.Sync is one micro-operation with it: the lower bound
      is the count just before the micro-operation of the n-th effect *)
   let st_lo := match n with O => st0 | S n' => run_through ms n' st0 end in
-  let m_ack := negb ((t_acked (snd st_lo) <=? c_acked c) && (c_acked c <=? t_acked (snd st_hi))) in
+  let m_ack := negb torn && negb ((t_acked (snd st_lo) <=? c_acked c) && (c_acked c <=? t_acked (snd st_hi))) in
   let pl := plan c s in
-  let m_maint := (c_prop c =? 11) && negb (reads_eqb (reads_of (maint_all pl s)) (last_stage o)) in
+  let m_maint := negb torn && (c_prop c =? 11) && negb (reads_eqb (reads_of (maint_all pl s)) (last_stage o)) in
+  let second_bad := match o_second o with
+                    | [] => false
+                    | bs2 => negb (second_ok_b keys rd bs2 (read_fn (o_reads2 o)))
+                    end in
   let viol :=
-    if c_prop c =? 9 then c_sync c && negb (o_opened o && acked_durable_b bs acked keys rd)
-    else if c_prop c =? 10 then negb (o_opened o && prefix_consistent_b bs keys rd)
+    if c_prop c =? 9 then c_sync c && (negb (o_opened o && acked_durable_b bs acked keys rd) || second_bad)
+    else if c_prop c =? 10 then negb (o_opened o && prefix_consistent_b bs keys rd) || second_bad
     else negb (o_opened o && stable_b keys rd (map read_fn (o_stages o))) in
   let known :=
     if c_prop c =? 10 then
-      (* F13: the reads are those of a prefix of the entries, but of no prefix of the batches *)
-      if o_opened o && prefix_consistent_b (entry_batches (c_steps c)) keys rd && negb (no_split (c_steps c)) then 1 else 0
+      (* F13: the reads are those of a prefix of the entries, but of no prefix of the batches (a WAL
+         flush inside a request, or a WAL write torn inside a request's records) *)
+      if o_opened o && negb second_bad && prefix_consistent_b (entry_batches (c_steps c)) keys rd &&
+         (negb (no_split (c_steps c)) || torn) then 1 else 0
     else 0 in
   mk_verdict (m_effs || m_reads || m_ack || m_maint) viol known.
